@@ -378,6 +378,7 @@ struct Case {
             s.replace(u"$ID"_s, cn->lastId);
             s.replace(u"$CONN"_s, QString::number(cn->connIndex));
             s.replace(u"$PREVID"_s, cn->lastPrevid);
+            s.replace(u"$PORT"_s, QString::number(clis[size_t(cn->clientIndex)]->listener->serverPort()));
             if (s.contains(u"$HREL:")) {
                 auto &c = *clis[size_t(cn->clientIndex)];
                 const int prevCount = prevInbound(cn);
@@ -624,7 +625,7 @@ struct Case {
         }
         if (op == u"await_accept") {
             auto &c = cli(st);
-            const int want = st["conn"].toInt(c.conns.size());
+            const int want = st.contains("rel") ? c.expectConn + st["rel"].toInt() : st["conn"].toInt(c.conns.size());
             bool ok = spinUntil([&] { return c.conns.size() > want; }, timeout);
             if (!ok) J({ { "ev", "await_failed" }, { "step", idx }, { "tag", "accept" }, { "timeout", true } });
             return ok;
